@@ -270,10 +270,13 @@ impl<R: BufRead> StreamDecryptor<R> {
         let to_read = buf_size - current_len;
 
         self.buffer.truncate(current_len);
-        let read = fill_buffer_bytes(&mut self.source, &mut self.buffer, buf_size)?;
-        self.in_buffer_end += read;
         // reset out buffer
         self.out_buffer_start = 0;
+        let res = fill_buffer_bytes(&mut self.source, &mut self.buffer, buf_size);
+        // account for what was pulled from the source even if it failed in between,
+        // everything in `buffer` is encrypted data at this point
+        self.in_buffer_end = self.buffer.len();
+        let read = res?;
 
         if read < to_read {
             debug!("source finished reading");
